@@ -429,10 +429,12 @@ pub fn exec(a: &[&str]) -> (String, String) {
                 Outcome::Panic(m) => ("PANIC".into(), format!("FAIL writer panics: {}", &m[..m.len().min(100)])),
             }
         }
-        "lzexp" | "lzexpn" => {
+        "lzexp" | "lzexpn" | "lzexpm" => {
             // lzexpn: the same without the .lzma header (LZMAWriter::new(.., use_header = false, .., Some(n))):
             // the declared size is enforced all the same
-            let use_header = a[0] == "lzexp";
+            // lzexpm: header, declared size AND end marker (LZMAWriter::new(.., true, true, Some(n)))
+            let use_header = a[0] != "lzexpn";
+            let force_marker = a[0] == "lzexpm";
             let o = Opts::parse(a[1]);
             let expected: Option<u64> = if a[2] == "none" { None } else { Some(a[2].parse().unwrap()) };
             let seed: u64 = a[3].parse().unwrap();
@@ -445,7 +447,7 @@ pub fn exec(a: &[&str]) -> (String, String) {
             let mut accepted: Vec<u8> = Vec::new();
             let mut fails: Vec<String> = Vec::new();
             let r = guarded(|| {
-                let mut w = LZMAWriter::new(Vec::new(), &o.lzma(None), use_header, expected.is_none(), expected)?;
+                let mut w = LZMAWriter::new(Vec::new(), &o.lzma(None), use_header, expected.is_none() || force_marker, expected)?;
                 let mut p = 0usize;
                 let mut finished: Option<std::io::Result<Vec<u8>>> = None;
                 for op in &ops {
@@ -673,7 +675,7 @@ pub fn gen(rng: &mut Rng, tier: &str, dist: &mut Dist) -> Vec<String> {
                 }
                 ops.push(Op::Finish);
                 dist.bump(&format!("lzexp.{tag}"));
-                let cmd = if rng.chance(1, 2) { "lzexp" } else { "lzexpn" };
+                let cmd = *rng.pick(&["lzexp", "lzexpn", "lzexpm"]);
                 dist.bump(cmd);
                 cmds.push(format!("{} {} {} {} {}", cmd, o.to_string(), expected.map(|e| e.to_string()).unwrap_or("none".into()), rng.next() % 1_000_000, ops_to_string(&ops)));
             }
